@@ -1,5 +1,5 @@
 """C15 — replies are dispatched solely by their class and instruction bytes."""
-from .. import common as C, structs as S, valgen as V, refcodec as R
+from .. import common as C, structs as S, valgen as V, refcodec as R, seqgen as G
 
 LEAN_MODULES = ["ZvtVerif.Properties.C15"]
 ASSUMPTIONS = ["reply table (enum -> variants -> control field) taken from the frozen specification table"]
@@ -117,8 +117,35 @@ def run(ctx, out):
         if r != w:
             out.oracle_failures.append({"op": ops[k], "observed": r[:300], "expected": w[:300], "key": ops[k][:100],
                                         "what": f"{meta[k][0]}: reply parser does not return exactly what the variant's own packet type decodes"})
+    # at the exchange level: an acknowledgement (80 00) whose BODY is a complete, valid reply packet of the command. The only
+    # packets received are that acknowledgement and the real replies; the body must not surface as a reply of its own.
+    sops, swant = [], []
+    for sq, enum, sin in G.sequences(spec):
+        if sq["name"].endswith("WriteFile"):
+            continue
+        once, finals = sq["kind"] == "once", sq["finals"]
+        letters = [x for grp in G.alphabet(spec, g, rng, enum, reps=2) for x in grp]
+        fin = [x for x in letters if once or x[2] in finals]
+        non = [x for x in letters if not once and x[2] not in finals]
+        cmd = G.command(spec, g, rng, sin)
+        for body in [x[0] for x in letters]:
+            for ack in (bytes([0x80, 0x00, len(body)]) + body, bytes([0x80, 0x00, 0xff, len(body), 0]) + body):
+                good = ([rng.choice(non)] if non and rng.random() < 0.5 else []) + [rng.choice(fin)]
+                sops.append(f"seq {sq['name']} {cmd.hex()} " + ",".join(i.hex() for i in [ack] + [x[0] for x in good]))
+                ev, _ = G.expected_events(cmd, len(ack), good, finals, once)
+                swant.append(" / ".join(ev + ["end"]))
+    simpl, smodel = ctx.pair(sops)
+    out.compare("seq(ack with body)", sops, simpl, smodel)
+    out.evaluations += len(sops)
+    for o, r, w in zip(sops, simpl, swant):
+        out.count("ack-with-body")
+        out.nontrivial.add(o)
+        if r != w:
+            out.oracle_failures.append({"op": o[:400], "observed": r[:400], "expected": w[:400], "key": o[:200],
+                                        "what": "an acknowledgement carrying a body is not consumed as ONE packet: its body is taken for a reply (or the exchange fails)"})
     out.exhaustive = True
     out.rule = ("all reply enums x all 65,536 (class, instr) pairs with an empty body and as a bare two-byte input without length byte; for control fields inside the reply set also valid bodies of every variant of the enum and random bodies "
                 "(thorough: a valid body for every pair); inputs shorter than two bytes. Oracle: outside the reply set => error; inside => identical to the variant type's own zvt_deserialize. "
+                "At the exchange level, for every sequence: an acknowledgement 80 00 whose body is a complete valid reply packet (short and extended length form) followed by the real replies — the body never surfaces as a reply. "
                 "non-trivial = ops whose control field is in the reply set")
     out.samples = [ops[10], ops[1551], {"op": dec_ops[3][:120], "impl": dec_impl[3][:200]}]
